@@ -48,7 +48,7 @@ class ArgView(object):
             self.dim = vi['dim']
             self.vi = vi
             self.lanes = [atom_at(root, argi, off, self.by_ref) for (off, sz) in vi['lanes']]
-            self.elem = scalar_name(F, vi['elem_ty'])
+            self.elem = vi['elem']
         elif t.get('k') in SCALAR_KINDS:
             self.kind = 'scalar'
             self.lanes = [atom_at(root, argi, 0, self.by_ref)]
